@@ -723,6 +723,7 @@ func TestC13(t *testing.T) {
 	}
 
 	protocolRepeats(t, rep, env, &evals, &nontrivial, &transitions, outcomes, mine)
+	runPairSched(t, rep, env)
 	rawBytes(t, rep, env, &evals, &nontrivial, &transitions, outcomes, mine)
 	linkReader(t, rep, env, &evals, &nontrivial, &transitions, outcomes, mine)
 	maliciousHandshake(t, rep, env, &evals, &nontrivial, &transitions, outcomes, mine)
